@@ -30,6 +30,7 @@ class SKTree:
     def __init__(self, coords, metric="minkowski", **kw):
         self.coords, self.metric, self.kw = coords, metric, kw
         self.queries = []
+        self.kwargs = []
 
     def query(self, X, k=1, return_distance=True, dualtree=False, breadth_first=False, sort_results=True):
         nq = X.shape_cap[0]
@@ -39,6 +40,7 @@ class SKTree:
             e.solver.add(sc.z(x) >= 0)
         ind = [mk(e.fresh("ind", "Int")) for _ in range(nq * k)]
         self.queries.append(("query", X, k, d, ind))
+        self.kwargs.append({"return_distance": return_distance, "sort_results": sort_results, "dualtree": dualtree, "breadth_first": breadth_first})
         D, I = symnp.SArr.new(d, (nq, k), None, symnp.float64), symnp.SArr.new(ind, (nq, k), None, symnp.int64)
         return (D, I) if return_distance else I
 
@@ -202,6 +204,13 @@ def make_query(oid, which, system, metric, batched, in_radians, op, tiers=("quic
                     return
                 _, X, k_, d0, i0 = sk.queries[-1]
                 ctx.prove("k passed through", k_ == kk)
+                # the index-only form of the same query: still 'nearest first', i.e. the tree is asked for sorted results
+                only = t.query(Q, k=kk, in_radians=in_radians, return_distance=False)
+                _, X2, k2, d2, i2 = sk.queries[-1]
+                oi = symnp.asarray(only)
+                ctx.prove("index-only query (return_distance=False): same k, the tree is asked for results sorted nearest first, and its indices are returned as they come",
+                          z3.And(z3.BoolVal(k2 == kk and bool(sk.kwargs[-1]["sort_results"]) and tuple(oi.shape_cap) == tuple((nq, kk) if batched else ((kk,) if kk > 1 else ()))),
+                                 *[sc.z(a) == sc.z(b) for a, b in zip(oi.flat_list(), i2)]))
             else:
                 try:
                     d, ind = t.query_radius(Q, r=r, in_radians=in_radians, return_distance=True)
@@ -304,6 +313,11 @@ def make_query(oid, which, system, metric, batched, in_radians, op, tiers=("quic
                 exp = [dist(n, pts[i]) for n in order]
                 if not np.allclose(d[i], exp, rtol=1e-6, atol=1e-9):
                     return f"{which} tree ({system},{metric}) distances {d[i].tolist()} for query {pts[i]} (in_radians={in_radians}), brute force gives {exp}"
+            only = np.asarray(t.query(Q, k=k, in_radians=in_radians, return_distance=False)).reshape(nq, k)
+            for i in range(nq):
+                order = sorted(range(N_NODE), key=lambda n: dist(n, pts[i]))[:k]
+                if [int(x) for x in only[i]] != order:
+                    return f"{which} tree ({system},{metric}) index-only query {pts[i]} k={k} returned {only[i].tolist()}, nearest first is {order}"
         else:
             r = float(v["r"])
             if r < 0:
